@@ -40,6 +40,30 @@ func gen(seed int64, tier string, idx int) *pipe.Scenario {
 	if g.R.Intn(6) == 0 {
 		sc.Topo.DLQ.NackPermille = []int{100, 400, 1000}[g.R.Intn(3)]
 	}
+	if idx%8 == 5 {
+		// partial DLQ failure family: several consecutive rejections travel in
+		// ONE source batch (on arch-v2: one DLQ write) and the DLQ rejects one of
+		// them that is not the last, i.e. DLQ replies like NACK,ack,ack or
+		// ack,NACK,ack. Only the acked prefix may be acknowledged to the source.
+		s0 := &sc.Topo.Sources[0]
+		s0.Src.Batches = []int{[]int{8, 6, 12}[g.R.Intn(3)]}
+		sc.Topo.Dests = sc.Topo.Dests[:1]
+		d := &sc.Topo.Dests[0]
+		d.Dst.NackPermille = 0
+		d.Dst.NackIdx = map[int]bool{}
+		at := 1 + g.R.Intn(4)
+		n := 3 + g.R.Intn(3)
+		for k := 0; k < n; k++ {
+			d.Dst.NackIdx[at+k] = true
+		}
+		if g.R.Intn(2) == 0 {
+			sc.Topo.DLQWindow, sc.Topo.DLQThresh = 0, 0 // no limit
+		} else {
+			sc.Topo.DLQWindow, sc.Topo.DLQThresh = 8, 6
+		}
+		sc.Topo.DLQ.NackPermille = 0
+		sc.Topo.DLQ.NackIdx = map[int]bool{at + g.R.Intn(n-1): true}
+	}
 	// keep recovery cheap: few retries
 	sc.RecMaxRetries = 1
 	return sc
@@ -53,7 +77,7 @@ func judge(out *pipe.Outcome, ix *pipe.Index) pipe.Verdict {
 	v.Violations = vs
 	v.AddJudged("", j)
 	// differential: both engines must take identical decisions for identical outcome sequences
-	if len(sc.Topo.Sources) == 1 && len(vs) == 0 && out.Settled && sc.Topo.DLQ.NackPermille == 0 {
+	if len(sc.Topo.Sources) == 1 && len(vs) == 0 && out.Settled && sc.Topo.DLQ.NackPermille == 0 && len(sc.Topo.DLQ.NackIdx) == 0 {
 		other := *sc
 		if sc.Engine == "v1" {
 			other.Engine = "v2"
@@ -109,7 +133,8 @@ func init() {
 		RuleText: "scenario = both engines, 1 source (3 of 4 cases; exact window oracle) or up to 3 sources (safety clauses), 1-3 destinations with scripted rejection rates and explicit rejection bursts, processors that error/filter, DLQ window W in {0,1,2,3,5,8} and threshold T < W, failing DLQ writes in 1 of 6 scenarios. Judged: every DLQ record (at most once per run, source order, carries the original record, a scripted error of that record and a component that rejects it), every failed DLQ write (never followed by an ack), per source session the tolerate-vs-stop decision against a reference window written from the property's wording, and for single-source scenarios the same scripts are run on the OTHER engine and the acked / dead-lettered sets must be identical. Non-trivial: a DLQ record or an intolerable rejection was judged; distinct = distinct (engine, topology, window config, outcome kinds).",
 		Assume:   []string{"reference window = 20 lines written from the C07 wording (internal/pipe/oracle_c07.go RefWindow)", "splits are excluded from the window scenarios (the wording counts outcomes of source records)", "for the default engine with several sources the interleaving of outcomes at the shared window is not observable at the boundary: safety clauses only"},
 		Quick:    240, Thorough: 8000,
-		Anchors: []string{"pkg/lifecycle/stream/dlq.go", "pkg/lifecycle/dlq.go", "pkg/lifecycle-poc/funnel/dlq.go", "pkg/lifecycle/stream/source_acker.go"},
-		Gen:     gen, Judge: judge,
+		PointBias: []string{"funnel.worker.ack", "funnel.worker.nack", "funnel.multiack.ack", "funnel.multiack.nack", "connector.source.ack", "stream.sourceacker.ack", "stream.sourceacker.nack", "stream.fanout.ack"},
+		Anchors:   []string{"pkg/lifecycle/stream/dlq.go", "pkg/lifecycle/dlq.go", "pkg/lifecycle-poc/funnel/dlq.go", "pkg/lifecycle/stream/source_acker.go"},
+		Gen:       gen, Judge: judge,
 	})
 }
